@@ -295,6 +295,13 @@ def deploy_mc(which):
             jobs.append(dict(name='deploy-nolag', kind='gen', module='MC_PKODeploy', constants=consts(tier), invariants=['TypeOK'] + inv, timeout=3000))
             jobs.append(dict(name='deploy-lag', kind='gen', module='MC_PKODeploy', constants=consts(tier, Lag='TRUE', **t2),
                              invariants=['TypeOK'] + (C07 if which == 'C07' else C08), timeout=3000))
+            if which == 'C08':
+                # negative control: pruning whatever the state (the code before fix 244db63) with revisionHistoryLimit 0
+                jobs.append(dict(name='deploy-negctl-pruneany', kind='gen', module='MC_PKODeploy',
+                                 constants=dict(consts(tier, HistLimit=0, **t2), PruneAnyState='MCTrue'),
+                                 invariants=['Inv_C08_PruneOnlyHistory'], expect_violation='Inv_C08_PruneOnlyHistory'))
+                jobs.append(dict(name='deploy-limit0', kind='gen', module='MC_PKODeploy', constants=consts(tier, HistLimit=0, **t2),
+                                 invariants=['TypeOK'] + C08, timeout=3000))
             if which == 'C07':
                 jobs.append(dict(name='deploy-lag-asfound', kind='gen', module='MC_PKODeploy', constants=consts(tier, Lag='TRUE'),
                                  invariants=['Inv_C07_RevisionsUnique'], expect_violation='Inv_C07_RevisionsUnique'))
